@@ -3,15 +3,16 @@
 # (patch applies, repo builds, demo passes without / fails with the change), store it under /verif/seeded/<ID>/ and
 # run the given checks (default: the property's own) against it.
 id=$1; shift
-src=/tmp/seed-$id/SEEDED
+pre=${SEED_PREFIX:-seed}; suf=${SEED_SUFFIX:-}
+src=/tmp/$pre-$id/SEEDED
 [ -f $src/patch.diff ] || { echo "no $src/patch.diff"; exit 2; }
 export GOFLAGS=-mod=mod GOPROXY=off GOSUMDB=off GOTOOLCHAIN=local
 demo_path=$(jq -r .demo_path $src/meta.json); demo_cmd=$(jq -r .demo_cmd $src/meta.json)
-wt=/tmp/cf-$id
+wt=/tmp/cf-$id$suf
 git -C /repo worktree remove --force $wt 2>/dev/null; rm -rf $wt
 git -C /repo worktree add --detach $wt HEAD >/dev/null 2>&1
 mkdir -p $wt/$(dirname $demo_path)
-cp /tmp/seed-$id/$demo_path $wt/$demo_path 2>/dev/null || cp $src/demo/$(basename $demo_path) $wt/$demo_path
+cp /tmp/$pre-$id/$demo_path $wt/$demo_path 2>/dev/null || cp $src/demo/$(basename $demo_path) $wt/$demo_path
 echo "--- demo WITHOUT the change (must pass)"
 (cd $wt && eval "$demo_cmd" 2>&1 | tail -3); 
 (cd $wt && eval "$demo_cmd" >/dev/null 2>&1); rc_without=$?
@@ -24,13 +25,13 @@ echo "--- demo WITH the change (must fail)"
 echo "demo rc without=$rc_without with=$rc_with"
 git -C /repo worktree remove --force $wt
 if [ $rc_without -eq 0 ] && [ $rc_with -ne 0 ]; then
-  mkdir -p /verif/seeded/$id/demo
-  cp $src/patch.diff /verif/seeded/$id/patch.diff
-  cp /tmp/seed-$id/$demo_path /verif/seeded/$id/demo/ 2>/dev/null || cp $src/demo/* /verif/seeded/$id/demo/
-  jq --arg c "demo passes on /repo HEAD (rc=$rc_without) and fails with patch.diff applied (rc=$rc_with); confirmed by tools/confirm_seed.sh in a scratch worktree" '. + {confirmed: $c}' $src/meta.json > /verif/seeded/$id/meta.json
-  echo "CONFIRMED -> /verif/seeded/$id"
+  mkdir -p /verif/seeded/$id$suf/demo
+  cp $src/patch.diff /verif/seeded/$id$suf/patch.diff
+  cp /tmp/$pre-$id/$demo_path /verif/seeded/$id$suf/demo/ 2>/dev/null || cp $src/demo/* /verif/seeded/$id$suf/demo/
+  jq --arg c "demo passes on /repo HEAD (rc=$rc_without) and fails with patch.diff applied (rc=$rc_with); confirmed by tools/confirm_seed.sh in a scratch worktree" '. + {confirmed: $c}' $src/meta.json > /verif/seeded/$id$suf/meta.json
+  echo "CONFIRMED -> /verif/seeded/$id$suf"
   checks="$@"; [ -z "$checks" ] && checks=$id
-  /verif/tools/tryseed.sh sd-$id /verif/seeded/$id/patch.diff $checks
+  /verif/tools/tryseed.sh sd-$id$suf /verif/seeded/$id$suf/patch.diff $checks
 else
   echo "NOT CONFIRMED"
 fi
